@@ -171,7 +171,7 @@ def c08(tier, seed, replay=None):
     if replay:
         return _replay("C08", replay)
     q = tier == "quick"
-    fams = [("nest", 2, None), ("nest", 3, 1200 if q else None), ("fault", 2, None), ("ho", 3 if q else 4, None)]
+    fams = [("nest", 2, None), ("nestq", 3, 1000) if q else ("nest", 3, None), ("fault", 2, None), ("ho", 3 if q else 4, None)]
     muts = [("nest", 2, MUT_GEQ), ("nest", 2, MUT_DEP), ("fault", 2, MUT_RESET)]
     return run_agm("C08", tier, seed, fams, muts,
                    "nest family: every nesting of depth 2 (and 3) x every mode assignment x every closure pattern (which enclosing variables the "
@@ -184,7 +184,7 @@ def c07(tier, seed, replay=None):
     if replay:
         return _replay("C07", replay)
     q = tier == "quick"
-    fams = [("ho", 4, None), ("nest", 2, None), ("nest", 3, 800 if q else None)]
+    fams = [("ho", 4, None), ("nest", 2, None), ("nestq", 3, 800) if q else ("nest", 3, None)]
     muts = [("ho", 3, MUT_GEQ)]
     return run_agm("C07", tier, seed, fams, muts,
                    "ho family: d^k/dx^k of x^e for k = 2..4, e = 2..5, all 2^k forward/reverse mode sequences, two points; nest family: inner "
@@ -196,7 +196,7 @@ def c14(tier, seed, replay=None):
     if replay:
         return _replay("C14", replay)
     q = tier == "quick"
-    fams = [("nd", 2, None), ("nest", 2, None), ("nest", 3, 600 if q else 6000)]
+    fams = [("nd", 2, None), ("nest", 2, None), ("nestq", 3, 600) if q else ("nest", 3, 6000)]
     muts = [("nest", 2, MUT_DEP)]
     return run_agm("C14", tier, seed, fams, muts,
                    "nd family: dependence only through a non-differentiable (notrace) primitive, x*nd(x) -> nd(x); nest family contains every "
